@@ -1,4 +1,5 @@
 from cacheprops import CACHE_TB, CACHE_ASSUMPTIONS, ca_component
+from c15_latency_part import LAT_PROP
 
 ID = "C15"
 PROP = {
@@ -16,7 +17,13 @@ PROP = {
                       "latest_step (latestTimestamp moves only to the max with an accepted, non-metadata notification's timestamp). Tied to the code "
                       "by the ca correspondence observing Metadata() after every step. Latency and race clauses: see level_note.",
         "level_note": "Trusted: Lean kernel; model validated by the ca correspondence. The latency-window clause and the unsynchronised-access clause "
-                      "are added by the latency model (lt component) and the -race stress step when merged; until then they are not claimed here.",
+                      "is decided by " + LAT_PROP["level_text_part"] + " The unsynchronised-access clause is decided by the -race stress step "
+                      "and the lockset facts when present in the obligation list of the evidence.",
         "technique": "Lean 4 proof (invariant over all API histories; per-outcome counter laws) + model/implementation correspondence",
     },
 }
+PROP["modules"] += LAT_PROP["modules"]
+PROP["theorems"] += LAT_PROP["theorems"]
+PROP["components"] += LAT_PROP["components"]
+PROP["trusted_base"] = PROP["trusted_base"] + LAT_PROP["trusted_base"]
+PROP["assumptions"] = PROP["assumptions"] + LAT_PROP["assumptions"]
